@@ -338,7 +338,7 @@ class Gen:
         if x < 0.9:
             return r.choice(["\n", "\t", "  ", "\n  ", " \n"])
         if self.comments_ok and after in ("(", ",", "=", None) and before not in (",", ")", ";"):
-            return r.choice(["/* c */", "/**/", "/* ( */", "/* , */", "/** n **/", "/***/", "/* a * b */", "/* see #1 */", "/*#2*/", "/* ' */", "/* ; */", "/*);*/"])
+            return r.choice(["/* c */", "/**/", "/* ( */", "/* , */", "/** n **/", "/***/", "/* a * b */", "/* see #1 */", "/*#2*/", "/* ' */", "/* ; */", "/*);*/", "/*/ x */"])
         return " "
 
     def between(self, p=0.07):
@@ -347,7 +347,7 @@ class Gen:
         r = self.r
         if not self.fancy or r.random() >= p:
             return ""
-        texts = ["/* c */", "/**/", "/* a * / b */", "/* open /* again */", "/***/", "/* ENDSEC; */", "/* two\nlines */", "/** x **/", "/* it's; */"]
+        texts = ["/* c */", "/**/", "/* a * / b */", "/* open /* again */", "/***/", "/* ENDSEC; */", "/* two\nlines */", "/** x **/", "/* it's; */", "/*/ x */", "/* " + "long " * 1800 + "*/"]
         return "".join(r.choice(texts) + r.choice(["", " ", "\n"]) for _ in range(r.choice((1, 1, 2, 3))))
 
     def idtext(self, i):
